@@ -11,6 +11,7 @@ TITLE = "extending needs a matching calendar chain and preserves the signature"
 
 
 def run(prog, chk):
+    replace_table(prog, chk)
     chk.explanation = (
         "(R6) KSI_ExtendResp_verifyWithRequest is evaluated abstractly for every combination of reply status {absent, 0, non-zero} x "
         "request-id equality x requested publication time {absent, equal, different} x aggregation-time equality x shape-time "
@@ -232,3 +233,56 @@ def run(prog, chk):
                "old right links %s vs new %s: expected %s, source returns %s%s" % (A, B, hex(want), sorted(hex(r) if isinstance(r, int) else str(r) for r in rets),
                                                                               "; unexpected comparison operands %s" % unknown if unknown else ""),
                loc=fc.loc(), fn=fc)
+
+
+def replace_table(prog, chk):
+    """replaceCalendarChain (signature_builder.c): the new calendar chain takes the place of the 0x802 element of the retained TLV when
+    there is one and is appended otherwise - no other element (an aggregation chain, a record) is ever replaced, whatever the order of
+    the elements and whether or not the signature had a calendar chain."""
+    from ksirules.interp import TOP, Interp, Ptr, list_overrides, succeed_model
+    from ksirules.model import lvalue_key, strip
+    chk.rule("C08.replace", "the new calendar chain replaces the old 0x802 element or is appended; nothing else leaves the retained TLV", floor=6)
+    fn = prog.fn("replaceCalendarChain", "signature_builder.c")
+    sp, cp = fn.params[0]["n"], fn.params[1]["n"]
+    for tags in ([0x801, 0x801, 0x802, 0x805], [0x801, 0x801, 0x801], [0x801], [0x802, 0x801, 0x801], [0x801, 0x802], [0x801, 0x801, 0x803], [0x801, 0x802, 0x803]):
+        has = 0x802 in tags
+        lists = {"NL": [Ptr("E%d" % k) for k in range(len(tags))]}
+        length, element_at = list_overrides(lists)
+        seen = {"replace": [], "append": []}
+
+        def nested(I, p, node, args):
+            I.write(p, lvalue_key(strip(node["a"][1])["e"], I.fn), Ptr("NL"))
+            return 0
+
+        def tagof(I, p, node, args):
+            a = args[0]
+            if isinstance(a, Ptr) and a.what.startswith("E"):
+                return tags[int(a.what[1:])]
+            if a == Ptr("NEW"):
+                return 0x802
+            return TOP
+
+        def tlvnew(I, p, node, args):
+            I.write(p, lvalue_key(strip(node["a"][-1])["e"], I.fn), Ptr("NEW"))
+            return 0
+        ov = {"KSI_TLV_getNestedList": nested, "KSI_TLVList_length": length, "KSI_TLVList_elementAt": element_at, "KSI_TLV_getTag": tagof, "KSI_TLV_new": tlvnew,
+              "KSI_TLV_replaceNestedTlv": lambda I, p, n, a: (seen["replace"].append((a[0], a[1], a[2])), 0)[1],
+              "KSI_TLV_appendNestedTlv": lambda I, p, n, a: (seen["append"].append((a[0], a[1])), 0)[1],
+              "KSI_CalendarHashChain_free": lambda I, p, n, a: TOP, "KSI_TLV_free": lambda I, p, n, a: TOP, "KSI_CalendarHashChain_ref": lambda I, p, n, a: a[0],
+              "KSI_DataHash_free": lambda I, p, n, a: TOP}
+        inputs = {sp: Ptr("SIG"), cp: Ptr("NEWCHAIN"), "SIG->ctx": Ptr("ctx"), "SIG->baseTlv": Ptr("BASE"), "SIG->calendarChain": Ptr("OLDCHAIN") if has else 0}
+        I = Interp(fn, inputs=inputs, call_model=succeed_model(prog, ov), on_unknown="stop", prog=prog, loop_bound=len(tags) + 3)
+        paths = I.run()
+        chk.paths += len(paths)
+        inst = "replaceCalendarChain[elements %s]" % " ".join("%x" % t for t in tags)
+        if len(paths) != 1 or paths[0].undetermined:
+            raise AnalysisBroken("replaceCalendarChain: evaluation not determined for %s: %s" % (inst, [q.undetermined[:1] for q in paths]))
+        q = paths[0]
+        if has:
+            want_r, want_a = [(Ptr("BASE"), Ptr("E%d" % tags.index(0x802)), Ptr("NEW"))], []
+        else:
+            want_r, want_a = [], [(Ptr("BASE"), Ptr("NEW"))]
+        ok = q.ret == 0 and seen["replace"] == want_r and seen["append"] == want_a
+        chk.ob("C08.replace", inst, ok, "expected %s; source: status %s, replaced %s, appended %s"
+               % ("element %d (0x802) replaced" % tags.index(0x802) if has else "the new chain appended, nothing replaced", q.ret, seen["replace"], seen["append"]),
+               loc=fn.loc(), fn=fn, nontrivial=not has)
